@@ -6,11 +6,13 @@ spec  : OrbRep.tla (exact numbers of Q(sqrt 3); s, p, d representation matrices 
         MC_OrbRepQuat.tla (rational, non-crystallographic rotations from integer quaternions, one state each),
         SymOrbits.tla / MC_SymOrbits.tla (space groups of small structures, site maps, integer shifts T),
         OrbRepRec.tla (record validation)
-bind  : spec -> code : every element of every generated group is passed to the real OrbitalRotator; s, p, d and the
-        sub-shell hybrids are compared with the specification's exact matrices (1e-10); for every shell accepted in
-        projections identity, orthogonality and D(g)D(h) = D(gh) over the specification's full multiplication table on
-        the stabiliser of the shell's span; local bases through the table; Dwann of every specification structure:
-        atommap and T exactly, D_wann(k) unitary with the block/phase structure given by the specification.
+bind  : spec -> code : the elements of every generated group that preserve the span of a shell are passed to the real
+        OrbitalRotator; s, p, d and the sub-shell hybrids are compared with the specification's exact matrices (1e-10, orbital
+        order read from the public table orbitals_sets_dic), sp/sp2/sp3/sp3d2 with M D_spec M^T (M from the public
+        hybrids_coef), f through its character and parity; identity, orthogonality and D(g)D(h) = D(gh) over the
+        specification's multiplication table on the stabiliser of the shell's span; local bases through the table; Dwann of
+        sampled specification structures: site map, D_wann(k) unitary with the block structure given by the specification;
+        one hexagonal cell (D6h elements matched through rotation_cart).
         code -> spec : matrices returned by the code (rationalised) and residual buckets of products across groups are
         validated by TLC against OrbRepRec.
 """
@@ -26,140 +28,213 @@ PROPS = {
     "C21": dict(level="exploration",
                 technique="TLC exhaustive on OrbRep/MC_OrbRep (finite point groups generated from generators, exact s/p/d "
                           "representation matrices in Q(sqrt3), multiplication table, homomorphism/orthogonality/parity invariants) "
-                          "and MC_SymOrbits (space groups of small structures); replay of every group element, every table entry and "
-                          "every structure on the real OrbitalRotator / Dwann; TLC validation of recorded matrices and residual buckets",
-                text="The specification decides exactly: the groups O_h, D_6h (and subgroups) with their multiplication tables, the "
-                     "s, p and d matrices of every element (and of products across the two groups), the sub-shell hybrids pz, p2, pxy, "
-                     "t2g, eg as sub-blocks, for which rotations a hybrid's span is preserved, the site maps and lattice shifts T of "
-                     "Dwann, and the s/p/d matrices of rational (integer-quaternion) rotations that are not crystallographic. Floating point only: f shell, sp/sp2/sp3/sp3d2 hybrids, random O(3) rotations, unitarity of D_wann "
-                     "(tolerance 1e-9, observed 1e-15).",
-                note="exact in TLA+: group axioms, tables, s/p/d matrices, hybrids that are sub-blocks, domain predicate, atommap/T. "
-                     "numeric (implementation vs its own composition, inputs and index triples chosen by the spec): f shell and "
-                     "sqrt(2)-hybrids, random rotations (reported as numeric_only). A hybrid whose span is not invariant under the "
-                     "rotation is outside the statement (rot_orb returns the compression, which cannot be orthogonal): excluded by "
-                     "the named predicate Preserves, whose sharpness is itself checked.",
+                          "and MC_SymOrbits (space groups of small structures); replay of the group elements and table entries on the "
+                          "stabiliser of each shell's span and of sampled structures on the real OrbitalRotator / Dwann; TLC validation "
+                          "of recorded matrices and residual buckets",
+                text="The specification decides exactly: the groups O_h, D_6h (thorough: and subgroups) with their multiplication tables, "
+                     "the s, p and d matrices of every element (and of products across the two groups), the sub-shell hybrids pz, p2, pxy, "
+                     "t2g, eg as sub-blocks, for which rotations a hybrid's span is preserved, the site maps and lattice shifts of "
+                     "Dwann, and the s/p/d matrices of rational (integer-quaternion) rotations that are not crystallographic. Floating "
+                     "point only: sp/sp2/sp3/sp3d2 hybrids against M D_spec M^T (1e-10), f shell (orthogonality, composition, character, "
+                     "parity), random O(3) rotations, rotations closer than the rotator's cache tolerance, unitarity of D_wann, the "
+                     "hexagonal cell (tolerance 1e-9, observed 1e-15).",
+                note="exact in TLA+: group axioms, tables, s/p/d matrices, hybrids that are sub-blocks, domain predicate, site maps/shifts. "
+                     "numeric (inputs and index triples chosen by the spec): f shell and sqrt(2)-hybrids, random rotations, hexagonal "
+                     "cell (reported as numeric_only). A hybrid whose span is not invariant under the rotation is outside the "
+                     "statement: what the code returns there is not constrained (thorough only counts how often the compression is "
+                     "orthogonal, as information). Quick: groups O_h and D_6h, 14 sampled tetragonal structures x <= 3 shells, no "
+                     "spinor D_wann; thorough: 8 groups, all cubic/tetragonal/orthorhombic structures, 30 % spinor (unitarity only: "
+                     "the statement asks no more of the spinor blocks). Orbital order and sign conventions are those of the public "
+                     "tables orbitals_sets_dic / hybrids_coef; the phase convention of D_wann(k) is accepted in either sign.",
                 ref="DESIGN.md 3.3, 3.7"),
 }
 
 TOL = 1e-9
 TOL_EXACT = 1e-10
-EXACT_SHELLS = ("s", "p", "d", "pz", "p2", "pxy", "t2g", "eg")
+INFO_CLAUSES = ("domain",)          # harness-vs-spec agreement, not a verdict on the code
 
 
 def all_shells():
-    from wannierberri.symmetry.orbitals import basis_shells_list, hybrid_shells_list
-    return list(basis_shells_list) + list(hybrid_shells_list)
+    from wannierberri.symmetry.orbitals import orbitals_sets_dic
+    return list(orbitals_sets_dic)
 
 
 def dev_orth(D):
     return float(np.abs(D @ D.T - np.eye(len(D))).max())
 
 
+def new_rotator():
+    from wannierberri.symmetry.orbitals import OrbitalRotator
+    return OrbitalRotator()
+
+
+def call_rot(rep, rot, sh, R, **kw):
+    """one call of the real rotator on an input inside the domain -> matrix or None (violation recorded)"""
+    ok, M = sc.guarded(rep, f"OrbitalRotator:{sh}", dict(shell=sh, rot_cart=np.asarray(R).tolist(), **{k: np.asarray(v).tolist() for k, v in kw.items()}),
+                       rot, sh, rot_cart=R, **kw)
+    return np.array(M, dtype=float) if ok else None
+
+
+def law_checks(rep, sh, R, M, g, i, where, maxdev, counts):
+    """what can be said about one matrix D_sh(R) with R in the stabiliser of the span: shape, exact value / hybrid oracle,
+    character and parity input for f, orthogonality.  g, i: specification matrices (dict with dp, dd) and index"""
+    from wannierberri.symmetry.orbitals import num_orbitals
+    dim = num_orbitals(sh)
+    if M.shape != (dim, dim):
+        rep.violation(f"OrbitalRotator:shape:{sh}", dict(where=where, shell=sh, rot_cart=np.asarray(R).tolist(), got_shape=list(M.shape)))
+        return False
+    exp = sc.expected_exact(g, sh, i)
+    kind = "exact"
+    if exp is None:
+        exp = sc.expected_hybrid(g, sh, i)
+        kind = "hybrid"
+    if exp is not None and exp.shape == M.shape:
+        counts[kind] = counts.get(kind, 0) + 1
+        dv = float(np.abs(M - exp).max())
+        maxdev[kind] = max(maxdev.get(kind, 0.0), dv)
+        if dv > TOL_EXACT:
+            rep.violation(f"OrbitalRotator:{kind}:{sh}", dict(where=where, shell=sh, rot_cart=np.asarray(R).tolist(), expected=exp.tolist(),
+                                                              got=M.tolist(), deviation=dv))
+    if sh == "f":
+        counts["character"] = counts.get("character", 0) + 1
+        dv = abs(float(np.trace(M)) - sc.character(3, R))
+        maxdev["character"] = max(maxdev.get("character", 0.0), dv)
+        if dv > TOL:
+            rep.violation("OrbitalRotator:character:f", dict(where=where, rot_cart=np.asarray(R).tolist(), trace=float(np.trace(M)),
+                                                             expected=sc.character(3, R)))
+    counts["orth"] = counts.get("orth", 0) + 1
+    dv = dev_orth(M)
+    maxdev["orth"] = max(maxdev.get("orth", 0.0), dv)
+    if dv > TOL:
+        rep.violation(f"OrbitalRotator:orthogonal:{sh}", dict(where=where, shell=sh, rot_cart=np.asarray(R).tolist(), got=M.tolist(), deviation=dv))
+    return True
+
+
 def replay_group(rep, g, shells, thorough, rng):
     """spec -> code for one generated group"""
-    from wannierberri.symmetry.orbitals import OrbitalRotator, num_orbitals
-    rot = OrbitalRotator()
+    from scipy.linalg import block_diag
+    rot = new_rotator()          # the elements of one group are far apart: the rotator's cache cannot confuse them
     n = g["n"]
-    D = {sh: [np.array(rot(sh, rot_cart=g["elems"][i])) for i in range(n)] for sh in shells}
-    maxdev = dict(exact=0.0, orth=0.0, hom=0.0)
-    counts = dict(exact=0, orth=0, hom=0, notpres=0, basis=0)
+    ident = [i for i in range(n) if np.array_equal(g["elems"][i], np.eye(3))]
+    minus = [i for i in range(n) if np.array_equal(g["elems"][i], -np.eye(3))]
+    if len(ident) != 1:
+        raise MachineryError(f"group {g['name']} has {len(ident)} identity elements")
+    maxdev, counts = {}, dict(hom=0, notpres=0, notpres_orthogonal=0, notpres_raises=0, basis=0, parity=0)
+    D = {sh: {} for sh in shells}
     for sh in shells:
         pres = g["pres"][sh]
-        dim = num_orbitals(sh)
         for i in range(n):
-            M = D[sh][i]
-            key = (g["name"], sh, i)
-            if M.shape != (dim, dim):
-                rep.violation(f"OrbitalRotator:shape:{sh}", dict(group=g["name"], shell=sh, element=g["elems"][i].tolist(), got_shape=M.shape))
-                continue
-            exp = sc.expected_exact(g, sh, i)
-            if exp is not None:
-                rep.case(("exact",) + key)
-                counts["exact"] += 1
-                dv = float(np.abs(M - exp).max())
-                maxdev["exact"] = max(maxdev["exact"], dv)
-                if dv > TOL_EXACT:
-                    rep.violation(f"OrbitalRotator:exact:{sh}", dict(group=g["name"], shell=sh, rot_cart=g["elems"][i].tolist(),
-                                                                     expected=exp.tolist(), got=M.tolist(), deviation=dv))
-            if i == 0:
-                rep.case(("identity",) + key)
-                if np.abs(M - np.eye(dim)).max() > TOL_EXACT:
-                    rep.violation(f"OrbitalRotator:identity:{sh}", dict(shell=sh, got=M.tolist()))
-            if i in pres:
-                rep.case(("orth",) + key)
-                counts["orth"] += 1
-                dv = dev_orth(M)
-                maxdev["orth"] = max(maxdev["orth"], dv)
-                if dv > TOL:
-                    rep.violation(f"OrbitalRotator:orthogonal:{sh}", dict(group=g["name"], shell=sh, rot_cart=g["elems"][i].tolist(),
-                                                                          got=M.tolist(), deviation=dv))
-            else:
+            R = g["elems"][i]
+            if i not in pres:
                 counts["notpres"] += 1
-                if dev_orth(M) < 1e-4:
-                    raise MachineryError(f"specification predicate Preserves({sh}) excludes element {i} of {g['name']} although the "
-                                         f"code's matrix is orthogonal: the predicate is not sharp")
+                if thorough:        # outside the statement: information only
+                    try:
+                        M = np.array(rot(sh, rot_cart=R), dtype=float)
+                        counts["notpres_orthogonal"] += int(M.ndim == 2 and M.shape[0] == M.shape[1] and dev_orth(M) < 1e-4)
+                    except Exception:
+                        counts["notpres_raises"] += 1
+                continue
+            M = call_rot(rep, rot, sh, R)
+            if M is None:
+                continue
+            rep.case(("element", g["name"], sh, i))
+            if not law_checks(rep, sh, R, M, g, i, g["name"], maxdev, counts):
+                continue
+            D[sh][i] = M
+            if i == ident[0] and np.abs(M - np.eye(len(M))).max() > TOL_EXACT:
+                rep.violation(f"OrbitalRotator:identity:{sh}", dict(shell=sh, got=M.tolist()))
+        # parity of the full shells under inversion: D(-R) = (-1)^l D(R) (p, d are exact already; here f and s)
+        if minus and sh in ("s", "p", "d", "f"):
+            l = "spdf".index(sh)
+            for i in sorted(D[sh]):
+                j = g["table"][i][minus[0]]
+                if j in D[sh]:
+                    counts["parity"] += 1
+                    dv = float(np.abs(D[sh][j] - (-1) ** l * D[sh][i]).max())
+                    if dv > TOL:
+                        rep.violation(f"OrbitalRotator:parity:{sh}", dict(group=g["name"], rot_cart=g["elems"][i].tolist(), deviation=dv,
+                                                                          what="D(-R) differs from (-1)^l D(R)"))
         # homomorphism over the specification's table, on the stabiliser of the span
-        for i in pres:
-            for j in pres:
+        for i in D[sh]:
+            for j in D[sh]:
                 k = g["table"][i][j]
+                if k not in D[sh]:
+                    continue
                 rep.case(("hom", g["name"], sh, i, j))
                 counts["hom"] += 1
                 dv = float(np.abs(D[sh][i] @ D[sh][j] - D[sh][k]).max())
-                maxdev["hom"] = max(maxdev["hom"], dv)
+                maxdev["hom"] = max(maxdev.get("hom", 0.0), dv)
                 if dv > TOL:
                     rep.violation(f"OrbitalRotator:homomorphism:{sh}", dict(group=g["name"], shell=sh, g=g["elems"][i].tolist(),
                                                                             h=g["elems"][j].tolist(), gh=g["elems"][k].tolist(),
                                                                             index_triple=[i, j, k], deviation=dv))
     # combined shells are block diagonal
     comb = "s;p;d"
-    for i in rng.sample(range(n), min(n, 6)):
-        M = np.array(rot(comb, rot_cart=g["elems"][i]))
-        from scipy.linalg import block_diag
-        exp = block_diag(np.eye(1), g["dp"][i], g["dd"][i])
-        rep.case(("comb", g["name"], i))
-        if M.shape != exp.shape or np.abs(M - exp).max() > TOL_EXACT:
-            rep.violation("OrbitalRotator:combined", dict(orb=comb, rot_cart=g["elems"][i].tolist(), expected=exp.tolist(), got=M.tolist()))
+    if all(sh in shells for sh in ("s", "p", "d")):
+        for i in rng.sample(range(n), min(n, 6)):
+            M = call_rot(rep, rot, comb, g["elems"][i])
+            if M is None:
+                continue
+            exp = block_diag(*[sc.expected_exact(g, sh, i) for sh in ("s", "p", "d")])
+            rep.case(("comb", g["name"], i))
+            if M.shape != exp.shape or np.abs(M - exp).max() > TOL_EXACT:
+                rep.violation("OrbitalRotator:combined", dict(orb=comb, rot_cart=g["elems"][i].tolist(), expected=exp.tolist(), got=M.tolist()))
     # local bases: rotator(sh, R, basis1, basis2) = D(basis2 R basis1^T), index through the specification's table
     nb = 400 if thorough else 60
     for _ in range(nb):
         sh = rng.choice(shells)
-        pres = sorted(g["pres"][sh])
         b1, r, b2 = rng.randrange(n), rng.randrange(n), rng.randrange(n)
         k = g["table"][b2][g["table"][r][g["inv"][b1]]]
-        if k not in g["pres"][sh]:
+        if k not in D[sh]:
             continue
-        M = np.array(rot(sh, rot_cart=g["elems"][r], basis1=g["elems"][b1], basis2=g["elems"][b2]))
+        M = call_rot(rep, rot, sh, g["elems"][r], basis1=g["elems"][b1], basis2=g["elems"][b2])
+        if M is None:
+            continue
         rep.case(("basis", g["name"], sh, b1, r, b2))
         counts["basis"] += 1
-        dv = float(np.abs(M - D[sh][k]).max())
-        if dv > TOL or dev_orth(M) > TOL:
+        dv = float(np.abs(M - D[sh][k]).max()) if M.shape == D[sh][k].shape else float("inf")
+        if dv > TOL:
             rep.violation(f"OrbitalRotator:local_basis:{sh}", dict(group=g["name"], shell=sh, rot_cart=g["elems"][r].tolist(),
                                                                    basis1=g["elems"][b1].tolist(), basis2=g["elems"][b2].tolist(),
                                                                    expected_element=k, deviation=dv))
     if counts["notpres"] == 0 and g["name"] in ("Oh", "D6h"):
         raise MachineryError(f"no element of {g['name']} outside a stabiliser: the domain predicate was never exercised")
-    if counts["basis"] == 0:
+    if counts["basis"] == 0 and not rep.violations:
         raise MachineryError("no local-basis case")
     rep.part(f"replay_{g['name']}", counts=counts, max_deviation=maxdev)
     return D
 
 
-def records(rep, groups, Dcache, shells, nmat, nhom, rng):
-    """code -> spec records: matrices (rationalised) and products across groups"""
-    from wannierberri.symmetry.orbitals import OrbitalRotator
-    rot = OrbitalRotator()
+def records(rep, groups, shells, nmat, nhom, rng):
+    """code -> spec records: matrices (rationalised, specification order) and products across groups"""
     recs = []
     pool = [(g, i) for g in groups for i in range(g["n"])]
+    subs = [sh for sh in sc.SPEC_SUB if sh in shells]
 
     def fmat(R):
-        out = dict(fn="mat", R=sc.rat_mat(R), s=sc.rat_mat(rot("s", rot_cart=R)), p=sc.rat_mat(rot("p", rot_cart=R)),
-                   d=sc.rat_mat(rot("d", rot_cart=R)), sub=[[sh, sc.rat_mat(rot(sh, rot_cart=R))] for sh in ("pz", "p2", "pxy", "t2g", "eg")])
+        rot = new_rotator()
+        out = dict(fn="mat", R=sc.rat_mat(R), sub=[])
+        for sh in ("s", "p", "d"):
+            M = call_rot(rep, rot, sh, R)
+            Ms = None if M is None else sc.to_spec_order(sh, M)
+            if Ms is None:
+                return None
+            out[sh] = sc.rat_mat(Ms)
+        for sh in subs:
+            if not sc.span_preserved(sh, R):
+                continue
+            M = call_rot(rep, rot, sh, R)
+            Ms = None if M is None else sc.to_spec_order(sh, M)
+            if Ms is not None:
+                out["sub"].append([sh, sc.rat_mat(Ms)])
         return out
     for _ in range(nmat):
         (g1, i), (g2, j) = rng.choice(pool), rng.choice(pool)
         R = g1["elems"][i] @ g2["elems"][j] if rng.random() < 0.6 else g1["elems"][i]
-        recs.append(fmat(R))
-        rep.case(("rec_mat", g1["name"], i, g2["name"], j))
+        r = fmat(R)
+        if r is not None:
+            recs.append(r)
+            rep.case(("rec_mat", g1["name"], i, g2["name"], j))
     for _ in range(nhom):
         (g1, i), (g2, j) = rng.choice(pool), rng.choice(pool)
         A, B = g1["elems"][i], g2["elems"][j]
@@ -167,8 +242,16 @@ def records(rep, groups, Dcache, shells, nmat, nhom, rng):
         ABx = sc.rat_mat(AB)
         ABf = np.array([[sc.num(x) if x[2] else float("nan") for x in row] for row in ABx])
         ents = []
+        rot = new_rotator()
         for sh in shells:
-            DA, DB, DAB = (np.array(rot(sh, rot_cart=M)) for M in (A, B, ABf))
+            if sh == "f" and rng.random() < 0.5:        # the f shell is slow (sympy)
+                continue
+            if not (sc.span_preserved(sh, A) and sc.span_preserved(sh, B)):
+                continue
+            Ds = [call_rot(rep, rot, sh, M) for M in (A, B, ABf)]
+            if any(d is None for d in Ds) or len({d.shape for d in Ds}) != 1 or Ds[0].shape[0] != Ds[0].shape[1]:
+                continue
+            DA, DB, DAB = Ds
             ents.append(dict(sh=sh, orth_g=sc.bucket(dev_orth(DA)), orth_h=sc.bucket(dev_orth(DB)),
                              hom=sc.bucket(float(np.abs(DA @ DB - DAB).max()))))
         recs.append(dict(fn="hom", g=sc.rat_mat(A), h=sc.rat_mat(B), gh=ABx, shells=ents))
@@ -176,14 +259,38 @@ def records(rep, groups, Dcache, shells, nmat, nhom, rng):
     return recs
 
 
+def _orbit_order(rep, dw, pos):
+    """local site index of every point of the Dwann's orbit (the orbit may be stored in any order): by position mod 1"""
+    ok, orb = sc.private(rep, "Dwann.orbit", lambda: np.array([np.asarray(p, dtype=float) for p in dw.orbit]))
+    if not ok:
+        return list(range(len(pos)))
+    order = []
+    for p in orb:
+        d = [np.abs((p - q + 0.5) % 1 - 0.5).max() for q in pos]
+        a = int(np.argmin(d))
+        if d[a] > 1e-8:
+            return None
+        order.append(a)
+    return order if sorted(order) == list(range(len(pos))) else None
+
+
+def _blocks_of(Dk, npnt, norb):
+    """for every column block a: the row block with non-zero entries (None if not exactly one), from D_wann(k) itself"""
+    out = []
+    for a in range(npnt):
+        nz = [b for b in range(npnt) if np.abs(Dk[b * norb:(b + 1) * norb, a * norb:(a + 1) * norb]).max() > 1e-12]
+        out.append(nz[0] if len(nz) == 1 else None)
+    return out
+
+
 def dwann_replay(rep, structs, oh, shells, thorough, rng):
-    """spec -> code: Dwann of every specification structure"""
+    """spec -> code: Dwann of specification structures"""
     from wannierberri.symmetry.Dwann import Dwann
-    from wannierberri.symmetry.orbitals import OrbitalRotator, num_orbitals
+    from wannierberri.symmetry.orbitals import num_orbitals
     ohindex = {tuple(tuple(int(round(x)) for x in r) for r in e): i for i, e in enumerate(oh["elems"])}
-    counts = dict(structures=0, maps=0, dwann=0, spinor=0, skipped_shell=0)
+    counts = dict(structures=0, maps=0, dwann=0, spinor=0, skipped_shell=0, shift_convention={}, phase_convention={})
     maxdev = 0.0
-    rot = OrbitalRotator()          # shared: its cache is keyed by the rotation matrix
+    rot = new_rotator()          # shared: all rotations are exact signed permutations (identical or far apart)
     for st in structs:
         spinor = thorough and rng.random() < 0.3
         with quiet():
@@ -196,58 +303,164 @@ def dwann_replay(rep, structs, oh, shells, thorough, rng):
             ok = [sh for sh in shells if all(ohindex[W] in oh["pres"][sh] for W, _, _ in st["ops"])]
             counts["skipped_shell"] += len(shells) - len(ok)
             for sh in (ok if thorough else rng.sample(ok, min(3, len(ok)))):
+                detail = dict(structure=st["key"], shell=sh, spinor=spinor)
                 with quiet():
-                    dw = Dwann(spacegroup=sg, positions=positions[glob], orbital=sh, orbitalrotator=rot,
-                               basis_list=[np.eye(3)] * len(glob), spinor=spinor)
-                key = (st["key"], ty, sh, spinor)
-                if len(dw.orbit) != len(glob):
-                    rep.violation("Dwann:orbit", dict(structure=st["key"], got=len(dw.orbit), expected=len(glob)))
+                    good, dw = sc.guarded(rep, "Dwann", detail, Dwann, spacegroup=sg, positions=positions[glob], orbital=sh, orbitalrotator=rot,
+                                          basis_list=[np.eye(3)] * len(glob), spinor=spinor)
+                if not good:
                     continue
+                key = (st["key"], ty, sh, spinor)
+                order = _orbit_order(rep, dw, positions[glob])
+                if order is None:
+                    rep.violation("Dwann:orbit", dict(structure=st["key"], what="the orbit of the given positions is not the set of given positions",
+                                                      expected=len(glob)))
+                    continue
+                npnt = len(glob)
                 norb = num_orbitals(sh) * (2 if spinor else 1)
                 kpt = np.array([rng.randint(1, 7) / 16, rng.randint(1, 7) / 24, rng.randint(1, 7) / 20])
+                okT, Tcode = sc.private(rep, "Dwann.T", lambda: np.asarray(dw.T))
+                okM, Mcode = sc.private(rep, "Dwann.atommap", lambda: np.asarray(dw.atommap))
+                dev_ph = {1: 0.0, -1: 0.0}
+                shift_eq = {1: True, -1: True}
                 for isym, n in enumerate(op_of):
-                    exp_map = [loc[st["amap"][n][k]] for k in glob]
-                    exp_T = [list(st["tvec"][n][k]) for k in glob]
-                    rep.case(("dwann_map",) + key + (isym,))
-                    counts["maps"] += 1
-                    if list(dw.atommap[:, isym]) != exp_map or dw.T[:, isym, :].tolist() != exp_T:
-                        rep.violation("Dwann:atommap_T", dict(structure=st["key"], op=st["ops"][n], expected_map=exp_map, expected_T=exp_T,
-                                                              got_map=dw.atommap[:, isym].tolist(), got_T=dw.T[:, isym, :].tolist()))
-                        continue
+                    # expected site map / shifts in the order of the code's orbit
+                    exp_map = [order.index(loc[st["amap"][n][glob[order[a]]]]) for a in range(npnt)]
+                    exp_T = np.array([st["tvec"][n][glob[order[a]]] for a in range(npnt)])
                     symop = sg.symmetries[isym]
-                    # centres map onto their symmetry images
-                    for a in range(len(glob)):
-                        img = symop.transform_r(positions[glob[a]]) + dw.T[a, isym]
-                        if np.abs(img - positions[glob[dw.atommap[a, isym]]]).max() > 1e-10:
-                            rep.violation("Dwann:centre_image", dict(structure=st["key"], op=st["ops"][n], site=a, image=img.tolist()))
                     k2 = symop.transform_k(kpt)
-                    Dk = dw.get_on_points(kpt, k2, isym)
-                    rep.case(("dwann_unitary",) + key + (isym,))
+                    good, Dk = sc.guarded(rep, "Dwann.get_on_points", dict(detail, op=st["ops"][n], k=kpt.tolist()), dw.get_on_points, kpt, k2, isym)
+                    if not good:
+                        continue
+                    Dk = np.asarray(Dk)
+                    rep.case(("dwann",) + key + (isym,))
                     counts["dwann"] += 1
                     counts["spinor"] += int(spinor)
+                    if Dk.shape != (npnt * norb, npnt * norb):
+                        rep.violation("Dwann:shape", dict(detail, got=list(Dk.shape), expected=npnt * norb))
+                        continue
                     dv = float(np.abs(Dk @ Dk.conj().T - np.eye(len(Dk))).max())
                     maxdev = max(maxdev, dv)
                     if dv > TOL:
                         rep.violation(f"Dwann:unitary:{sh}", dict(structure=st["key"], op=st["ops"][n], shell=sh, spinor=spinor, deviation=dv))
-                    # block structure and phases from the specification's map and shifts
-                    W = st["ops"][n][0]
-                    exp = np.zeros_like(Dk)
-                    for a in range(len(glob)):
-                        b = exp_map[a]
-                        blk = Dk[b * norb:(b + 1) * norb, a * norb:(a + 1) * norb]
-                        ph = np.exp(2j * np.pi * np.dot(k2, exp_T[a]))
-                        exp[b * norb:(b + 1) * norb, a * norb:(a + 1) * norb] = blk
-                        if not spinor:
-                            e = sc.expected_exact(oh, sh, ohindex[W])
-                            if e is not None and np.abs(blk - ph * e).max() > 1e-10:
-                                rep.violation(f"Dwann:block:{sh}", dict(structure=st["key"], op=st["ops"][n], site=a, k=kpt.tolist(),
-                                                                        expected=(ph * e).tolist(), got=blk.tolist()))
-                    if np.abs(Dk - exp).max() > 1e-12:
-                        rep.violation("Dwann:support", dict(structure=st["key"], op=st["ops"][n], shell=sh,
-                                                            what="non-zero entries outside the blocks (atommap[a], a)"))
-    if counts["dwann"] == 0 or counts["maps"] == 0:
+                    # each centre is mapped onto its symmetry image: block (map(a), a) and nothing else, map = the specification's
+                    got_map = _blocks_of(Dk, npnt, norb)
+                    counts["maps"] += 1
+                    if got_map != exp_map:
+                        rep.violation("Dwann:centre_map", dict(structure=st["key"], op=st["ops"][n], shell=sh, expected_map=exp_map, got_blocks=got_map,
+                                                               what="D_wann(k) does not connect every centre with exactly its symmetry image"))
+                        continue
+                    if okM and [int(x) for x in Mcode[:, isym]] != exp_map:
+                        rep.violation("Dwann:atommap", dict(structure=st["key"], op=st["ops"][n], expected_map=exp_map, got_map=Mcode[:, isym].tolist()))
+                    if okT:
+                        shift_eq[1] &= bool(np.array_equal(Tcode[:, isym, :], exp_T))
+                        shift_eq[-1] &= bool(np.array_equal(Tcode[:, isym, :], -exp_T))
+                    if not spinor:
+                        e = sc.expected_exact(oh, sh, ohindex[st["ops"][n][0]])
+                        if e is None:
+                            e = sc.expected_hybrid(oh, sh, ohindex[st["ops"][n][0]])
+                        if e is not None and e.shape == (norb, norb):
+                            for a in range(npnt):
+                                b = exp_map[a]
+                                blk = Dk[b * norb:(b + 1) * norb, a * norb:(a + 1) * norb]
+                                ph = np.exp(2j * np.pi * np.dot(k2, exp_T[a]))
+                                dev_ph[1] = max(dev_ph[1], float(np.abs(blk - ph * e).max()))
+                                dev_ph[-1] = max(dev_ph[-1], float(np.abs(blk - np.conj(ph) * e).max()))
+                # conventions: decided once per Dwann (the statement does not fix the sign of the shifts / of the phase)
+                if okT:
+                    conv = 1 if shift_eq[1] else (-1 if shift_eq[-1] else 0)
+                    counts["shift_convention"][conv] = counts["shift_convention"].get(conv, 0) + 1
+                    if conv == 0:
+                        rep.violation("Dwann:shifts", dict(structure=st["key"], shell=sh, what="the lattice shifts T are neither p_map(a) - g(p_a) nor its negative"))
+                conv = 1 if dev_ph[1] <= TOL_EXACT else (-1 if dev_ph[-1] <= TOL_EXACT else 0)
+                counts["phase_convention"][conv] = counts["phase_convention"].get(conv, 0) + 1
+                if conv == 0:
+                    rep.violation(f"Dwann:block:{sh}", dict(structure=st["key"], shell=sh, k=kpt.tolist(), deviation_plus=dev_ph[1], deviation_minus=dev_ph[-1],
+                                                            what="blocks are not exp(+-2 pi i k'.T) times the specification's orbital matrix"))
+    if (counts["dwann"] == 0 or counts["maps"] == 0) and not rep.violations:
         raise MachineryError("no Dwann case")
-    rep.part("dwann_replay", counts=counts, max_unitarity_deviation=maxdev)
+    rep.part("dwann_replay", counts={k: (v if not isinstance(v, dict) else {str(a): b for a, b in v.items()}) for k, v in counts.items()},
+             max_unitarity_deviation=maxdev)
+
+
+def hexagonal_cell(rep, d6h, shells, thorough):
+    """numeric only: one hexagonal cell (lattice rotations are not signed permutations, rotation != rotation_cart).  The real
+    group's Cartesian rotations are matched to the specification's D6h elements; Dwann of a site at the origin and of the
+    honeycomb orbit of (1/3, 2/3, 1/4): unitarity, centre mapping, blocks = unimodular phase x specification matrix"""
+    from irrep.spacegroup import SpaceGroup
+    from wannierberri.symmetry.Dwann import Dwann
+    from wannierberri.symmetry.orbitals import num_orbitals
+    lattice = sc.lattice_of("hex")
+    with quiet():
+        sg = SpaceGroup.from_cell(real_lattice=lattice, positions=np.zeros((1, 3)), typat=[1], magmom=None, include_TR=True, spinor=False)
+    elem_of = []
+    for symop in sg.symmetries:
+        Rc = np.asarray(symop.rotation_cart, dtype=float)
+        d = [float(np.abs(Rc - e).max()) for e in d6h["elems"]]
+        i = int(np.argmin(d))
+        if d[i] > 1e-8:
+            raise MachineryError("an operation of the hexagonal cell's space group is not an element of the specification's D6h")
+        elem_of.append(i)
+    if set(elem_of) != set(range(d6h["n"])):
+        raise MachineryError(f"the hexagonal cell has {len(set(elem_of))} point operations, the specification's D6h {d6h['n']}")
+    use = [sh for sh in shells if len(d6h["pres"][sh]) == d6h["n"] and (thorough or sh != "f")]
+    rot = new_rotator()
+    counts, maxdev = dict(dwann=0, shells=len(use)), 0.0
+    kpt = np.array([3 / 16, 5 / 24, 7 / 20])
+    for pos in (np.zeros((1, 3)), np.array([[1 / 3, 2 / 3, 0.25]])):
+        # the orbit as the code generates it (a scalar Dwann needs no rotator / basis list)
+        with quiet():
+            good, dw0 = sc.guarded(rep, "Dwann", dict(cell="hexagonal", positions=pos.tolist()), Dwann, spacegroup=sg, positions=pos)
+        ok, orb0 = sc.private(rep, "Dwann.orbit", lambda: np.array([np.asarray(p, dtype=float) for p in dw0.orbit])) if good else (False, None)
+        if not ok:
+            continue
+        for sh in use:
+            detail = dict(cell="hexagonal", positions=pos.tolist(), shell=sh)
+            npnt, norb = len(orb0), num_orbitals(sh)
+            with quiet():
+                good, dw = sc.guarded(rep, "Dwann", detail, Dwann, spacegroup=sg, positions=orb0, orbital=sh, orbitalrotator=rot,
+                                      basis_list=[np.eye(3)] * npnt, spinor=False)
+            if not good:
+                continue
+            ok, orb = sc.private(rep, "Dwann.orbit", lambda: np.array([np.asarray(p, dtype=float) for p in dw.orbit]))
+            if not ok:
+                continue
+            if len(orb) != npnt:
+                rep.violation("Dwann:orbit", dict(detail, what="the orbit of a complete orbit has a different size", got=len(orb), expected=npnt))
+                continue
+            for isym, symop in enumerate(sg.symmetries):
+                k2 = symop.transform_k(kpt)
+                good, Dk = sc.guarded(rep, "Dwann.get_on_points", dict(detail, isym=isym), dw.get_on_points, kpt, k2, isym)
+                if not good:
+                    continue
+                Dk = np.asarray(Dk)
+                rep.case(("dwann_hex", sh, len(orb), isym))
+                counts["dwann"] += 1
+                dv = float(np.abs(Dk @ Dk.conj().T - np.eye(len(Dk))).max()) if Dk.shape == (npnt * norb,) * 2 else float("inf")
+                maxdev = max(maxdev, dv)
+                if dv > TOL:
+                    rep.violation(f"Dwann:unitary:{sh}:hexagonal", dict(detail, isym=isym, deviation=dv))
+                    continue
+                blocks = _blocks_of(Dk, npnt, norb)
+                e = sc.expected_exact(d6h, sh, elem_of[isym])
+                if e is None:
+                    e = sc.expected_hybrid(d6h, sh, elem_of[isym])
+                for a in range(npnt):
+                    b = blocks[a]
+                    img = symop.transform_r(orb[a])
+                    if b is None or np.abs((img - orb[b] + 0.5) % 1 - 0.5).max() > 1e-8:
+                        rep.violation("Dwann:centre_map:hexagonal", dict(detail, isym=isym, site=a, image=np.asarray(img).tolist(), got_block=b))
+                        continue
+                    if e is not None:
+                        blk = Dk[b * norb:(b + 1) * norb, a * norb:(a + 1) * norb]
+                        z = np.vdot(e, blk) / np.vdot(e, e)
+                        dv = max(float(np.abs(blk - z * e).max()), abs(abs(z) - 1))
+                        maxdev = max(maxdev, dv)
+                        if dv > TOL:
+                            rep.violation(f"Dwann:block:{sh}:hexagonal", dict(detail, isym=isym, rotation_cart=np.asarray(symop.rotation_cart).tolist(),
+                                                                              expected_up_to_phase=e.tolist(), got=np.asarray(blk).tolist(), deviation=dv))
+    if counts["dwann"] == 0 and not rep.violations:
+        raise MachineryError("no Dwann case on the hexagonal cell")
+    rep.part("hexagonal_cell_numeric_only", counts=counts, max_deviation=maxdev)
 
 
 QUAT_INV = ["InO3", "RepOrthogonal", "RepParity", "RepHom", "RepInverse", "Compression"]
@@ -256,67 +469,68 @@ PARTNERS = [np.array([[0, -1, 0], [1, 0, 0], [0, 0, 1.0]]), np.array([[0, 0, 1],
 
 def rational_rotations(rep, shells, norms, npart, nreplay, nf, rng, workers):
     """exact non-crystallographic rotations (integer quaternions): TLC model + replay on the real OrbitalRotator"""
-    from wannierberri.symmetry.orbitals import OrbitalRotator
     cfg = ("SPECIFICATION Spec\nCONSTANTS\n  QMAX = 2\n  NORMS = {%s}\n  NPART = %d\n  Variant = \"code\"\n" % (", ".join(str(n) for n in norms), npart) +
            "".join(f"INVARIANT {i}\n" for i in QUAT_INV) + "CHECK_DEADLOCK FALSE\n")
-    st = ftable.enumerate_states("MC_OrbRepQuat.tla", cfg, "c21_quat", workers=workers)
+    name = sc.uniq("c21_quat")
+    st = ftable.enumerate_states("MC_OrbRepQuat.tla", cfg, name, workers=workers)
     if ftable.spec_violation(rep, st, "c21_quat"):
         return
     rep.add_tlc("c21_quat", st)
     states = sorted(ftable.dump_states(st), key=lambda s: (s["q"], s["sgn"]))
     if not states or not any(x[2] not in (1, 2) for s in states for row in s["R"] for x in row):
         raise MachineryError("no non-crystallographic rational rotation enumerated")
-    rot = OrbitalRotator()
-    maxdev = dict(exact=0.0, orth=0.0, hom=0.0)
+    maxdev, counts = {}, {}
     nfdone = 0
+    exact_shells = [sh for sh in shells if sc.spec_indices(sh) is not None]
+    full = [sh for sh in ("s", "p", "d", "sp3") if sh in shells]
     for s in (states if nreplay >= len(states) else rng.sample(states, nreplay)):
         R = sc.mat(s["R"])
         g = dict(dp=[sc.mat(s["dp"])], dd=[sc.mat(s["dd"])])
-        for sh in ("s", "p", "d", "pz", "p2", "pxy", "t2g", "eg"):
-            M = np.array(rot(sh, rot_cart=R))
-            exp = sc.expected_exact(g, sh, 0)
-            rep.case(("quat_exact", s["q"], s["sgn"], sh))
-            dv = float(np.abs(M - exp).max())
-            maxdev["exact"] = max(maxdev["exact"], dv)
-            if dv > TOL_EXACT:
-                rep.violation(f"OrbitalRotator:exact:{sh}", dict(quaternion=s["q"], sign=s["sgn"], rot_cart=R.tolist(), expected=exp.tolist(), got=M.tolist()))
-        full = ["s", "p", "d", "sp3"] + (["f"] if nfdone < nf else [])
+        where = dict(quaternion=s["q"], sign=s["sgn"])
+        rot = new_rotator()
+        Dr = {}
+        for sh in exact_shells + [x for x in full if x not in exact_shells] + (["f"] if nfdone < nf and "f" in shells else []):
+            if sh not in full + ["f"] and not sc.span_preserved(sh, R):
+                # sub-shell hybrid not preserved by this rotation: outside the statement
+                continue
+            M = call_rot(rep, rot, sh, R)
+            if M is None:
+                continue
+            rep.case(("quat", s["q"], s["sgn"], sh))
+            if law_checks(rep, sh, R, M, g, 0, where, maxdev, counts):
+                Dr[sh] = M
         nfdone += 1
-        for sh in full:
-            DA = np.array(rot(sh, rot_cart=R))
-            dv = dev_orth(DA)
-            maxdev["orth"] = max(maxdev["orth"], dv)
-            rep.case(("quat_orth", s["q"], s["sgn"], sh))
-            if dv > TOL:
-                rep.violation(f"OrbitalRotator:orthogonal:{sh}", dict(quaternion=s["q"], sign=s["sgn"], rot_cart=R.tolist(), deviation=dv))
+        for sh in [x for x in full + ["f"] if x in Dr]:
             for P in (PARTNERS[:npart] if sh != "f" else PARTNERS[:1]):
                 for A, B in ((R, P), (P, R)):
-                    dv = float(np.abs(np.array(rot(sh, rot_cart=A)) @ np.array(rot(sh, rot_cart=B)) - np.array(rot(sh, rot_cart=A @ B))).max())
-                    maxdev["hom"] = max(maxdev["hom"], dv)
+                    rot2 = new_rotator()
+                    Ms = [call_rot(rep, rot2, sh, X) for X in (A, B, A @ B)]
+                    if any(m is None for m in Ms):
+                        continue
+                    dv = float(np.abs(Ms[0] @ Ms[1] - Ms[2]).max())
+                    maxdev["hom"] = max(maxdev.get("hom", 0.0), dv)
                     rep.case(("quat_hom", s["q"], s["sgn"], sh, A is R, P.tolist()))
                     if dv > TOL:
                         rep.violation(f"OrbitalRotator:homomorphism:{sh}", dict(A=A.tolist(), B=B.tolist(), deviation=dv))
-    rep.part("rational_rotations", tlc_states=len(states), max_deviation=maxdev)
+    rep.part("rational_rotations", tlc_states=len(states), counts=counts, max_deviation=maxdev)
     rep.sample(dict(quaternion=states[len(states) // 2]["q"], sign=states[len(states) // 2]["sgn"], rot_cart=sc.mat(states[len(states) // 2]["R"]).tolist()))
 
 
 def random_rotations(rep, shells, npairs, nf, rng):
-    """numeric only: random proper/improper rotations"""
+    """numeric only: random proper/improper rotations; a fresh rotator per product (see cache_tolerance)"""
     from scipy.spatial.transform import Rotation
-    from wannierberri.symmetry.orbitals import OrbitalRotator
-    rot = OrbitalRotator()
     nprs = np.random.RandomState(rng.randrange(2**31))
     full = [sh for sh in shells if sh in ("s", "p", "d", "sp3")]
     axis_z = [sh for sh in shells if sh in ("pz", "pxy", "sp2")]
     axis_x = [sh for sh in shells if sh in ("sp", "p2")]
-    maxdev = 0.0
+    maxdev, counts = {}, {}
     ncase = 0
 
     def rnd(axis=None):
         if axis is None:
             R = Rotation.random(random_state=nprs).as_matrix()
             return R * nprs.choice([1, -1])
-        ang = nprs.uniform(0, 2 * np.pi)
+        ang = nprs.uniform(0.05, 2 * np.pi - 0.05)
         v = np.zeros(3)
         v[axis] = 1
         R = Rotation.from_rotvec(ang * v).as_matrix()
@@ -330,97 +544,192 @@ def random_rotations(rep, shells, npairs, nf, rng):
     for n in range(npairs):
         for shs, axis in ((full + (["f"] if n < nf and "f" in shells else []), None), (axis_z, 2), (axis_x, 0)):
             A, B = rnd(axis), rnd(axis)
+            mats = (A, B, A @ B)
+            if min(np.abs(X - Y).max() for a, X in enumerate(mats) for Y in mats[a + 1:]) < 1e-2:
+                continue        # nearly coincident rotations are the subject of cache_tolerance, not of this sub-check
             for sh in shs:
-                DA, DB, DAB = (np.array(rot(sh, rot_cart=M)) for M in (A, B, A @ B))
+                if not all(sc.span_preserved(sh, X) for X in mats):
+                    raise MachineryError(f"random rotation about axis {axis} does not preserve the span of {sh}")
+                rot = new_rotator()
+                Ds = []
+                for X in mats:
+                    M = call_rot(rep, rot, sh, X)
+                    if M is None or not law_checks(rep, sh, X, M, sc.np_rep(X), 0, "random", maxdev, counts):
+                        break
+                    Ds.append(M)
+                if len(Ds) < 3:
+                    continue
                 ncase += 1
                 rep.case(("random", sh, n, axis))
-                for nm, dv in (("orthogonal", dev_orth(DA)), ("orthogonal", dev_orth(DB)), ("homomorphism", float(np.abs(DA @ DB - DAB).max()))):
-                    maxdev = max(maxdev, dv)
-                    if dv > TOL:
-                        rep.violation(f"OrbitalRotator:{nm}:{sh}:random", dict(shell=sh, A=A.tolist(), B=B.tolist(), deviation=dv))
+                dv = float(np.abs(Ds[0] @ Ds[1] - Ds[2]).max())
+                maxdev["hom"] = max(maxdev.get("hom", 0.0), dv)
+                if dv > TOL:
+                    rep.violation(f"OrbitalRotator:homomorphism:{sh}:random", dict(shell=sh, A=A.tolist(), B=B.tolist(), deviation=dv))
     rep.part("numeric_only", what="random O(3) rotations (full shells, sp3) and random rotations about / mirrors through the "
-                                  "preserved axis for pz, pxy, sp2 (z) and sp, p2 (x): orthogonality and D(A)D(B) = D(AB)",
-             cases=ncase, max_deviation=maxdev, tolerance=TOL)
+                                  "preserved axis for pz, pxy, sp2 (z) and sp, p2 (x): orthogonality, D(A)D(B) = D(AB), value against the "
+                                  "harness's floating-point s/p/d formula (hybrids through hybrids_coef), character of f",
+             cases=ncase, counts=counts, max_deviation=maxdev, tolerance=TOL)
+
+
+def cache_tolerance(rep, shells, rng):
+    """numeric only: composition law for rotations that nearly coincide, asked of ONE rotator instance (as Dwann does for the
+    operations and local bases of one projection).  D(A) D(B) must equal D(AB) also when AB is within 1e-4 of A"""
+    nprs = np.random.RandomState(rng.randrange(2**31))
+
+    def rz(t):
+        c, s = np.cos(t), np.sin(t)
+        return np.array([[c, -s, 0.0], [s, c, 0.0], [0.0, 0.0, 1.0]])
+    worst = 0.0
+    ncase = 0
+    for sh in [x for x in ("p", "d") if x in shells]:
+        for eps in (5e-5, 2e-5, 5e-6):
+            t = float(nprs.uniform(0.2, 1.2))
+            A, B = rz(t), rz(eps)
+            rot = new_rotator()
+            Ms = [call_rot(rep, rot, sh, X) for X in (A, B, A @ B)]
+            fresh = call_rot(rep, new_rotator(), sh, A @ B)
+            if any(m is None for m in Ms) or fresh is None:
+                continue
+            ncase += 1
+            rep.case(("cache", sh, eps))
+            dv = float(np.abs(Ms[0] @ Ms[1] - Ms[2]).max())
+            dvf = float(np.abs(Ms[0] @ Ms[1] - fresh).max())
+            worst = max(worst, dv)
+            if dv > TOL:
+                rep.violation("OrbitalRotator:cache_tolerance",
+                              dict(shell=sh, A=f"rotation about z by {t!r}", B=f"rotation about z by {eps!r}", deviation_same_instance=dv,
+                                   deviation_fresh_instance=dvf, same_object_returned=bool(np.array_equal(Ms[0], Ms[2])),
+                                   what="one OrbitalRotator instance returns for A.B the cached matrix of A (matrices closer than 1e-4 are "
+                                        "identified): D(A) D(B) differs from D(AB) by about |B - 1|; a fresh instance is exact",
+                                   reproduce="from wannierberri.symmetry.orbitals import OrbitalRotator; import numpy as np; "
+                                             "rz=lambda t: np.array([[np.cos(t),-np.sin(t),0],[np.sin(t),np.cos(t),0],[0,0,1.]]); r=OrbitalRotator(); "
+                                             "a=r('p',rot_cart=rz(0.3)); b=r('p',rot_cart=rz(0.30005)); print(a is b, "
+                                             "abs(b-OrbitalRotator()('p',rot_cart=rz(0.30005))).max())"))
+    rep.part("cache_tolerance_numeric_only", cases=ncase, max_deviation=worst)
 
 
 def check(pid, tier):
     rep = Report(pid, tier, "exploration")
+    try:
+        return _check(rep, tier)
+    except Exception:
+        if rep.violations:
+            rep.finish()
+        raise
+    finally:
+        sc.cleanup(keep=bool(rep.violations))
+
+
+def _check(rep, tier):
     thorough = tier == "thorough"
     rng = random.Random(seed() * 7919 + 21)
-    workers = 16
-    shells = all_shells()
+    workers = sc.WORKERS
+    code_shells = all_shells()
     rep.rule("TLC generates each point group from its generators and tabulates the multiplication table and the exact s/p/d matrices; "
-             "a case = one (shell, element) or (shell, g, h) table entry replayed on the real OrbitalRotator, one (structure, shell, "
-             "operation) of Dwann, or one recorded matrix/product validated by TLC; distinct by these tuples")
+             "a case = one (shell, element) or (shell, g, h) table entry (g, h in the stabiliser of the shell's span) replayed on the real "
+             "OrbitalRotator, one (structure, shell, operation) of Dwann, or one recorded matrix/product validated by TLC; distinct by "
+             "these tuples")
     rep.assume("exact comparison of s, p, d and sub-shell hybrids uses 1e-10 (entries are 0, 1/2, sqrt(3)/2, ...); numeric laws use 1e-9 "
                "(observed deviations 1e-15)")
-    rep.assume("hybrid shells are only required to be orthogonal for rotations that map their span onto itself (OrbRep!Preserves)")
+    rep.assume("hybrid shells are only required to be orthogonal for rotations that map their span onto itself (OrbRep!Preserves); outside "
+               "that domain the code's answer is not constrained")
+    rep.assume("orbital order and hybrid coefficients are read from the public tables orbitals_sets_dic / hybrids_coef")
 
     names = ["Oh", "D6h"] + (["Td", "O", "D4h", "D3d", "C6v", "D2h"] if thorough else [])
     groups = []
     Dcache = {}
+    shells = code_shells
     for name in names:
-        st, g = sc.orbrep_group(name, f"c21_{name}", workers=workers)
+        st, g = sc.orbrep_group(name, sc.uniq(f"c21_{name}"), workers=workers)
         if ftable.spec_violation(rep, st, f"c21_{name}"):
             continue
         rep.add_tlc(f"c21_{name}", st)
-        if set(g["pres"].keys()) != set(shells):     # the specification must know every shell the code accepts
-            raise MachineryError(f"shells accepted by orbitals.py {sorted(shells)} differ from OrbRep!AllShells {sorted(g['pres'])}: extend the specification")
+        shells = [sh for sh in code_shells if sh in g["pres"]]
+        if set(shells) != set(code_shells) or set(shells) != set(g["pres"]):     # a new / removed shell is not an error of the code
+            rep.part("shells", unknown_to_spec=sorted(set(code_shells) - set(g["pres"])), not_in_code=sorted(set(g["pres"]) - set(code_shells)))
+        if not all(sh in shells for sh in ("s", "p", "d")):
+            raise MachineryError(f"the code's shells {code_shells} lack s, p or d")
         groups.append(g)
         Dcache[name] = replay_group(rep, g, shells, thorough, rng)
-        if len(rep.cov["samples"]) < 2:
+        if len(rep.cov["samples"]) < 2 and 1 in Dcache[name]["p"]:
             rep.sample(dict(group=name, element=g["elems"][1].tolist(), p_matrix_spec=g["dp"][1].tolist(),
                             p_matrix_code=Dcache[name]["p"][1].tolist(), table_row_1=g["table"][1][:8]))
     if not groups:
         return rep.finish()
 
     # sensitivity: plausible wrong variants must be rejected by TLC
-    stt = tlc.run_tlc("MC_OrbRep.tla", sc.orbrep_cfg("D3d", "transposed"), "c21_transposed", workers=workers, timeout=900)
+    stt = tlc.run_tlc("MC_OrbRep.tla", sc.orbrep_cfg("D3d", "transposed"), sc.uniq("c21_transposed"), workers=workers, timeout=1500)
     if not stt.get("violation") or stt["violation"][1] not in ("RepHomP", "RepHomD", "SubHom"):
         raise MachineryError(f"sensitivity self-test failed: D = R^T (anti-homomorphism) must violate the homomorphism invariant, got {stt.get('violation')}")
-    stx = tlc.run_tlc("MC_OrbRep.tla", sc.orbrep_cfg("D4h", "xyz"), "c21_xyz", workers=workers, timeout=900)
-    if not stx.get("violation"):
-        raise MachineryError("sensitivity self-test failed: p shell in (x,y,z) order must violate Compression")
-    rep.part("sensitivity", transposed=stt["violation"][1], xyz_order=stx["violation"][1])
-    # binding self-test (spec -> code): the xyz-ordered p matrix must differ from the code's on some element
+    sens = dict(transposed=stt["violation"][1])
+    if thorough:
+        stx = tlc.run_tlc("MC_OrbRep.tla", sc.orbrep_cfg("D4h", "xyz"), sc.uniq("c21_xyz"), workers=workers, timeout=1500)
+        if not stx.get("violation"):
+            raise MachineryError("sensitivity self-test failed: p shell in (x,y,z) order must violate Compression")
+        sens["xyz_order"] = stx["violation"][1]
+    rep.part("sensitivity", **sens)
+    # binding self-test (spec -> code): a wrongly ordered expected p matrix must differ from the code's on some element
     g0 = groups[0]
-    perm = [1, 2, 0]      # (z,x,y) -> (x,y,z)
-    if all(np.abs(g0["dp"][i][np.ix_(perm, perm)] - Dcache[g0["name"]]["p"][i]).max() < TOL_EXACT for i in range(g0["n"])):
+    perm = [1, 2, 0]
+    pc = Dcache[g0["name"]]["p"]
+    if pc and all(np.abs(sc.expected_exact(g0, "p", i)[np.ix_(perm, perm)] - pc[i]).max() < TOL_EXACT for i in pc):
         raise MachineryError("binding self-test failed: a wrongly ordered expected p matrix is not distinguished")
 
     # Dwann on the specification's structures
     oh = groups[0]
-    lats, nsites, poscat = (["cubic", "tetra", "ortho"], [1, 2], "small") if thorough else (["tetra"], [1, 2], "tiny")
-    sts, structs, excl = sc.symorb_structures("c21_symorb", lats, nsites, poscat, workers=workers)
-    if not ftable.spec_violation(rep, sts, "c21_symorb"):
-        rep.add_tlc("c21_symorb", sts)
-        rep.part("c21_symorb_structures", built=len(structs), excluded_nonprimitive=excl)
-        if not structs:
-            raise MachineryError("no structure enumerated")
-        if not any(any(t != (0, 0, 0) for m in s["tvec"] for t in m) for s in structs):
-            raise MachineryError("no structure with a non-zero lattice shift T")
-        sel = structs if thorough else rng.sample(structs, min(len(structs), 14))
-        dwann_replay(rep, sel, oh, shells, thorough, rng)
+    if oh["name"] == "Oh":
+        lats, nsites, poscat = (["cubic", "tetra", "ortho"], [1, 2], "small") if thorough else (["tetra"], [1, 2], "tiny")
+        sts, structs, excl = sc.symorb_structures(sc.uniq("c21_symorb"), lats, nsites, poscat, workers=workers)
+        if not ftable.spec_violation(rep, sts, "c21_symorb"):
+            rep.add_tlc("c21_symorb", sts)
+            rep.part("c21_symorb_structures", built=len(structs), excluded_nonprimitive=excl)
+            if not structs:
+                raise MachineryError("no structure enumerated")
+            if not any(any(t != (0, 0, 0) for m in s["tvec"] for t in m) for s in structs):
+                raise MachineryError("no structure with a non-zero lattice shift T")
+            sel = structs if thorough else rng.sample(structs, min(len(structs), 14))
+            dwann_replay(rep, sel, oh, shells, thorough, rng)
+    d6h = [g for g in groups if g["name"] == "D6h"]
+    if d6h:
+        hexagonal_cell(rep, d6h[0], shells, thorough)
 
-    # code -> spec
-    recs = records(rep, groups[:2], Dcache, shells, nmat=250 if thorough else 40, nhom=350 if thorough else 60, rng=rng)
-    stv, bad = ftable.validate_records("OrbRepRec.tla", ftable.REC_CFG, recs, "c21")
-    rep.add_tlc("c21_records", stv)
-    rep.add_traces(len(recs))
+    # code -> spec (the corrupted records of the binding self-test travel in the same batch)
+    recs = records(rep, groups[:2], shells, nmat=250 if thorough else 16, nhom=350 if thorough else 24, rng=rng)
+    mats = [r for r in recs if r["fn"] == "mat"]
+    homs = [r for r in recs if r["fn"] == "hom" and r["shells"]]
+    if not mats or not homs:
+        if rep.violations:
+            return rep.finish()
+        raise MachineryError("no matrix / product record")
+    badrec = copy.deepcopy(mats[0])
+    badrec["p"][0][1], badrec["p"][1][0] = badrec["p"][1][0], badrec["p"][0][1]
+    badrec["p"][0][0] = [1, 1, 2]
+    badhom = copy.deepcopy(homs[0])
+    badhom["shells"][0]["hom"] = 12
+    nreal = len(recs)
+    stv, bad = ftable.validate_records("OrbRepRec.tla", ftable.REC_CFG, recs + [badrec, badhom], sc.uniq("c21"))
+    rep.add_tlc("c21_records", dict(stv, distinct=stv["distinct"] - 2, generated=stv["generated"] - 4))
+    rep.add_traces(nreal)
+    if "p_equals_spec" not in bad.get(nreal, []) or "homomorphism" not in bad.get(nreal + 1, []):
+        raise MachineryError(f"binding self-test failed: corrupted records accepted ({ {k: v for k, v in bad.items() if k >= nreal} })")
+    rep.part("binding_selftest", corrupted_records_rejected={k - nreal: v for k, v in bad.items() if k >= nreal})
+    info = {}
     for i, clauses in bad.items():
+        if i >= nreal:
+            continue
         r = recs[i]
-        rep.violation(f"OrbitalRotator:recorded:{r['fn']}:{'+'.join(sorted(clauses))}", dict(record=r, failing_clauses=clauses))
+        hard = sorted(c for c in clauses if c not in INFO_CLAUSES)
+        for c in clauses:
+            if c in INFO_CLAUSES:
+                info[c] = info.get(c, 0) + 1
+        if hard:
+            rep.violation(f"OrbitalRotator:recorded:{r['fn']}:{'+'.join(hard)}", dict(record=r, failing_clauses=hard))
+    if info:
+        raise MachineryError(f"the harness's floating-point domain filter disagrees with OrbRep!Preserves on {info} records")
     rep.sample({k: v for k, v in recs[0].items() if k in ("fn", "R", "p")})
-    badrec = copy.deepcopy([r for r in recs if r["fn"] == "mat"][:1])
-    badrec[0]["p"][0][1], badrec[0]["p"][1][0] = badrec[0]["p"][1][0], badrec[0]["p"][0][1]
-    badrec[0]["p"][0][0] = [1, 1, 2]
-    badhom = copy.deepcopy([r for r in recs if r["fn"] == "hom"][:1])
-    badhom[0]["shells"][0]["hom"] = 12
-    _, b2 = ftable.validate_records("OrbRepRec.tla", ftable.REC_CFG, badrec + badhom, "c21_selftest")
-    if "p_equals_spec" not in b2.get(0, []) or "homomorphism" not in b2.get(1, []):
-        raise MachineryError(f"binding self-test failed: corrupted records accepted ({b2})")
-    rep.part("binding_selftest", corrupted_records_rejected=b2)
 
-    rational_rotations(rep, shells, norms=range(1, 17) if thorough else [5], npart=4 if thorough else 2, nreplay=200 if thorough else 24, nf=6 if thorough else 1, rng=rng, workers=workers)
+    rational_rotations(rep, shells, norms=range(1, 17) if thorough else [5], npart=4 if thorough else 1, nreplay=200 if thorough else 16,
+                       nf=6 if thorough else 1, rng=rng, workers=workers)
     random_rotations(rep, shells, npairs=40 if thorough else 6, nf=12 if thorough else 2, rng=rng)
+    cache_tolerance(rep, shells, rng)
     return rep.finish()
